@@ -74,7 +74,14 @@ def do_run(name, checks, tier, seed):
       r = sh(['git', 'apply', '--unsafe-paths', '--directory=' + scratch, os.path.join(d, 'patch.diff')], cwd='/')
   else:
     r = sh(['git', '-C', '/repo', 'apply', os.path.join(d, 'patch.diff')])
-  assert r.returncode == 0, r.stderr
+  if r.returncode != 0:
+    print('%s: PATCH DOES NOT APPLY to the current /repo (%s)' % (name, r.stderr.strip().splitlines()[-1][:160] if r.stderr.strip() else ''))
+    if scratch:
+      import shutil
+      shutil.rmtree(scratch, ignore_errors=True)
+    else:
+      sh(['git', '-C', '/repo', 'checkout', '--', '.'])
+    return {}
   res = {}
   try:
     for c in checks:
